@@ -16,8 +16,9 @@ ASSUMPTIONS = [
     "implementation by the oracle only (the clipping to the used area is openpyxl/excelwrapper code that "
     "is not modelled)",
     "CSE array formulas, tables / structured references, formulas returning a reference (OFFSET, INDIRECT) and "
-    "the reference cell of an unbounded range are outside the machine: the streams cse-order, table-order, "
-    "reference-order, cse-range and unbounded-history are judged on the implementation alone, the reference "
+    "the reference cell of an unbounded range and range operations (intersection, computed corners) are outside "
+    "the machine: the streams cse-order, table-order, reference-order, cse-range, range-ops and "
+    "unbounded-history are judged on the implementation alone, the reference "
     "being the value of the cell evaluated alone by a fresh compiler (from-scratch compile after writes)",
 ]
 
@@ -171,7 +172,17 @@ def run(ctx):
         "references, all/sampled first-evaluation orders and range paths, values also computed from the sheet's "
         "own table; reference-order - cells whose whole formula returns a reference (OFFSET/INDIRECT) to formula "
         "cells, sampled permutations, value = the target's; cse-range - sub-rectangles and unbounded rows/columns "
-        "around and across CSE arrays of an in-memory workbook; unbounded-history - SUM/COUNT/MIN/MAX of A:A, "
+        "around and across CSE arrays of an in-memory workbook, plus adjacent arrays with identical / prefix-equal "
+        "texts (first block >= 2 cells across the adjacency): every thin range 1 x k / k x 1 / 2 x k anchored in the "
+        "first block and running into the neighbours, before and after its cells, and SUM(thin range) = sum of the "
+        "cells; range-ops - formulas built on a range operation (intersection operator incl. unbounded operands, "
+        "computed corners B3:OFFSET(B3,0,0) / OFFSET(..):B3 / INDEX(..):B3 / B3:INDIRECT(..), B1:B2:B5, union "
+        "arguments) that denotes one formula / number / blank cell or a sub-range, bare or wrapped, and cells chained "
+        "on them: every range (the column of operations, the columns / rows / block they point into, B:B, E:E, r:r), "
+        "list / tuple / generator and formula cell evaluated first, then every other target, plus random "
+        "permutations; each observation = the solo value including its type (a nested tuple where a scalar belongs "
+        "is a violation), the value stored for a single cell is not an array, SUM(range) = sum of the cells, a "
+        "failing order is shrunk to the targets needed; unbounded-history - SUM/COUNT/MIN/MAX of A:A, "
         "A:B, r:r, 1:n with set_value on members, every first-evaluation order of the formulas, each value "
         "compared with a from-scratch compile")
 
@@ -736,8 +747,8 @@ def _cse_range_targets(ctx, ExcelCompiler, g, k, targets, solo, arrays, members,
             [([target] + cells) if ti % 2 == 0 else (cells + [target])]
         for oi, order in enumerate(orders):
             kind = 'cse-range-' + ('inside' if (r1, c1) in members else 'outside')
-            case = dict(call='cse-range', wrapper='in-memory', workbook=g.desc(), args=[target['addr']],
-                        order=[x['addr'] for x in order], rect=[t, r1, c1, r2, c2], arrays=arrays)
+            case = dict(call='cse-range', args=[target['addr']], order=[x['addr'] for x in order],
+                        wrapper='in-memory', workbook=g.desc(), rect=[t, r1, c1, r2, c2], arrays=arrays)
             try:
                 seen = _observe(ExcelCompiler, g, order)
             except Exception as exc:      # noqa: BLE001
@@ -805,8 +816,8 @@ def _sum_oracle(ctx, stream, key, grid, sums, solo, extra=None):
         got = solo[cell]
         gotn = got[1] if isinstance(got, tuple) and got[:1] == ('float',) else got
         if isinstance(gotn, bool) or not isinstance(gotn, (int, type(want))) or gotn != want:
-            case = dict(call=stream, workbook=grid.desc(), args=[_ra(cell[0], r1, c1, r2, c2)],
-                        order=[_a(*cell)], error='sum')
+            case = dict(call=stream, args=[_ra(cell[0], r1, c1, r2, c2)], order=[_a(*cell)], error='sum',
+                        workbook=grid.desc())
             case.update(extra or {})
             ctx.violation(case, f"{_a(*cell)} = SUM({_ra(cell[0], r1, c1, r2, c2)}) is not the sum of the values "
                                 f"of the cells of that range", impl=got, expected=want)
@@ -946,8 +957,8 @@ def _stream_range_ops(ctx):
                     small = trial
             kind, what, impl, expected = verdict(small)
             reported += 1
-            ctx.violation(dict(call='range-ops', workbook=g.desc(), order=[x['addr'] for x in small],
-                               first=small[0]['addr'], error=kind), what, impl=impl, expected=expected)
+            ctx.violation(dict(call='range-ops', order=[x['addr'] for x in small], first=small[0]['addr'],
+                               error=kind, workbook=g.desc()), what, impl=impl, expected=expected)
 
 
 # ------------------------------------- T5: unbounded row/column ranges as formula arguments, with writes
